@@ -5223,7 +5223,18 @@ func checkValue(
 			rootError := r
 			for {
 				switch err := r.(type) {
-				case errors.UserError, errors.ExternalError:
+				case errors.ExternalError:
+					// The host may report a user error (e.g. a program that fails to check)
+					// wrapped in its own error: such a value is broken and is skipped.
+					// Any other failure of the host is not a broken value:
+					// it must fail the execution, and must not be swallowed.
+					var userError errors.UserError
+					if xerrors.As(err, &userError) {
+						valueError = err
+						return
+					}
+					panic(rootError)
+				case errors.UserError:
 					valueError = err.(error)
 					return
 				case xerrors.Wrapper:
